@@ -136,4 +136,58 @@ CASES = [
       }
 
       return arg;""")]),
+ dict(name="b-c13-recalc-guard-flipped", ids=["C13"], subs=[("backend/StringFromTime.h", "    if (timestamp >= _next_recalculation_timestamp)", "    if (_next_recalculation_timestamp <= timestamp)")]),
+ dict(name="b-c13-recalc-every-five-minutes", ids=["C13"], subs=[("backend/StringFromTime.h", "(timestamp / 900) * 900;", "(timestamp / 300) * 300;"),
+                                                               ("backend/StringFromTime.h", "_nearest_quarter_hour_timestamp(timestamp) + 900;", "_nearest_quarter_hour_timestamp(timestamp) + 300;")]),
+ dict(name="b-c13-fraction-end-in-a-local", ids=["C13"], subs=[("backend/TimestampFormatter.h", """    memcpy(&_formatted_date[_formatted_date.size() - extracted_ms_string.size()],""", """    size_t const field_end = _formatted_date.size();
+    (void)field_end;
+    memcpy(&_formatted_date[_formatted_date.size() - extracted_ms_string.size()],""")]),
+ dict(name="b-c14-prefix-test-with-rfind", ids=["C14"], subs=[("sinks/RotatingSink.h", """          // we only check for the files of the same extension to remove
+          continue;
+        }
+
+        // is_directory() does not exist in std::experimental::filesystem
+        if (entry.path().filename().string().find(filename.stem().string() + ".") != 0)
+        {
+          // expect to find filename.stem().string() exactly at the start of the filename
+          continue;
+        }
+
+        if (_config.rotation_naming_scheme() == RotatingFileSinkConfig::RotationNamingScheme::Index)
+        {
+          fs::remove(entry);""", """          // we only check for the files of the same extension to remove
+          continue;
+        }
+
+        // is_directory() does not exist in std::experimental::filesystem
+        if (!(entry.path().filename().string().rfind(filename.stem().string() + ".", 0) == 0))
+        {
+          // expect to find filename.stem().string() exactly at the start of the filename
+          continue;
+        }
+
+        if (_config.rotation_naming_scheme() == RotatingFileSinkConfig::RotationNamingScheme::Index)
+        {
+          fs::remove(entry);""")]),
+ dict(name="b-c15-minute-advance-spelled-out", ids=["C15"], subs=[("sinks/RotatingSink.h", "      date.tm_min += 1;", "      date.tm_min = date.tm_min + 1;"),
+                                                                 ("sinks/RotatingSink.h", "      date.tm_hour += 1;", "      ++date.tm_hour;")]),
+ dict(name="b-c16-line-assigned-in-both-arms", ids=["C16"], subs=[("backend/BackendWorker.h", """        std::string_view log_to_write = log_statement;
+
+        // If the sink has an override pattern formatter to use, prepare the override formatted statement
+        if (sink->_override_pattern_formatter_options)
+        {""", """        std::string_view log_to_write;
+
+        if (!sink->_override_pattern_formatter_options)
+        {
+          log_to_write = log_statement;
+        }
+        else
+        {"""), ]),
+ dict(name="b-c19-separator-size", ids=["C19"], subs=[("backend/BackendWorker.h", "      start = end + delimiter.length();", "      start = delimiter.size() + end;")]),
+ dict(name="b-c19-separator-guard-plus-one", ids=["C19"], subs=[("backend/BackendWorker.h", "      if (i < named_args.size() - 1)\n      {\n        format_string += delimiter;", "      if (i + 1 < named_args.size())\n      {\n        format_string += delimiter;")]),
+ dict(name="b-c17-insert-logger-upper-bound", ids=["C17"], subs=[("core/LoggerManager.h", """    auto search_it = std::lower_bound(_loggers.begin(), _loggers.end(), logger->get_logger_name(),
+                                      [](std::unique_ptr<LoggerBase> const& a, std::string const& b)
+                                      { return a->get_logger_name() < b; });""", """    auto search_it = std::upper_bound(_loggers.begin(), _loggers.end(), logger->get_logger_name(),
+                                      [](std::string const& b, std::unique_ptr<LoggerBase> const& a)
+                                      { return b < a->get_logger_name(); });""")]),
 ]
